@@ -66,7 +66,7 @@ def arg_rule(dec: str, A: str, kind: int, in_class: bool, is_lambda: bool) -> bo
 
 
 def obligations(tier, seed):
-    t = 450 if tier == 'quick' else 1200
+    t = 240 if tier == 'quick' else 1200
     return [
         dict(name='C04.interface_names', fn='interface_names', shards=plan(skeletons.TEMPLATES, tier, seed + 1, 14, pin_c_quick=True), timeout=t,
              bounds='see META; quick = seeded rotation of 16 skeletons', public_replay='public_interface_names'),
